@@ -70,6 +70,14 @@ CellSum(idx)  == IF CellNV(idx) = 0 /\ SumNaN THEN NaN ELSE R(CellWY(idx))
 CellStd(idx)  == Sub(Div(R(CellWYY(idx)), R(CellWV(idx))), Sq(CellMean(idx)))
 CellMed(idx)  == Add(Mul(R(2), CellMean(idx)), One)
 
+\* index tuples all of whose components are valid elements (a missing category or
+\* the "missing" plane of an MR selection axis is not)
+ValidIdx(ax, idx) ==
+  \A a \in 1..Len(ax) :
+    IF ax[a].role = "sel" THEN idx[a] \in {SEL, OTH}
+    ELSE idx[a] \notin Dims[ax[a].d].miss
+ValidOnly(ax, idxs) == SelectSeq(idxs, LAMBDA i : ValidIdx(ax, i))
+
 FlatI(f(_), idxs) == [t \in 1..Len(idxs) |-> f(idxs[t])]
 
 \* the measures as the response carries them
